@@ -279,3 +279,57 @@ impl ModelStr {
         &self.buf[..self.len]
     }
 }
+
+/// Is `b` well-formed UTF-8?  Written from the definition (Unicode Table 3-7), independent of
+/// std's validator; validated natively against `core::str::from_utf8`.
+pub fn valid_utf8(b: &[u8]) -> bool {
+    let n = b.len();
+    let mut i = 0;
+    let mut ok = true;
+    let mut steps = 0;
+    while steps < 8 {
+        // callers pass at most 8 bytes
+        if ok && i < n {
+            let b0 = b[i];
+            if b0 < 0x80 {
+                i += 1;
+            } else if b0 >= 0xC2 && b0 <= 0xDF {
+                if i + 1 < n && is_cont(b[i + 1]) {
+                    i += 2;
+                } else {
+                    ok = false;
+                }
+            } else if b0 >= 0xE0 && b0 <= 0xEF {
+                if i + 2 < n {
+                    let b1 = b[i + 1];
+                    let lo = if b0 == 0xE0 { 0xA0 } else { 0x80 };
+                    let hi = if b0 == 0xED { 0x9F } else { 0xBF };
+                    if b1 >= lo && b1 <= hi && is_cont(b[i + 2]) {
+                        i += 3;
+                    } else {
+                        ok = false;
+                    }
+                } else {
+                    ok = false;
+                }
+            } else if b0 >= 0xF0 && b0 <= 0xF4 {
+                if i + 3 < n {
+                    let b1 = b[i + 1];
+                    let lo = if b0 == 0xF0 { 0x90 } else { 0x80 };
+                    let hi = if b0 == 0xF4 { 0x8F } else { 0xBF };
+                    if b1 >= lo && b1 <= hi && is_cont(b[i + 2]) && is_cont(b[i + 3]) {
+                        i += 4;
+                    } else {
+                        ok = false;
+                    }
+                } else {
+                    ok = false;
+                }
+            } else {
+                ok = false;
+            }
+        }
+        steps += 1;
+    }
+    ok && i == n
+}
